@@ -168,6 +168,7 @@ let snapshot (m : machine) =
 (* ---------- running ---------- *)
 let fuel_int = ref 2_000_000
 let with_snap = ref true
+let with_inv = ref false
 
 let run_one (p : parsed) idx =
   let prog = { p_classes = dense "class" p.classes; p_scripts = dense "script" p.scripts; p_main = p.main } in
@@ -185,14 +186,20 @@ let run_one (p : parsed) idx =
         List.iter (fun e ->
             print_endline (event_s e);
             (match e with EBad ((Abort | Fuel), _) -> halted := true | _ -> ())) (List.rev fresh);
-        if !with_snap && not !halted then print_string (snapshot !m)
+        if !with_snap && not !halted then print_string (snapshot !m);
+        if !with_inv && not !halted then begin
+          if not (inv_b p.conf [] !m) then Printf.printf "INV FAIL %d\n" k;
+          if not (no_bad !m) then Printf.printf "INV BAD %d\n" k;
+          if no_panic_yet !m && not (exact_b [] !m) then Printf.printf "INV EXACT FAIL %d\n" k
+        end
       end) prog.p_main;
   Printf.printf "== end %d\n" idx
 
 let () =
   let files = ref [] in
   Arg.parse [ "--fuel", Arg.Set_int fuel_int, "fuel (default 2000000)";
-              "--no-snap", Arg.Clear with_snap, "do not print state snapshots" ]
+              "--no-snap", Arg.Clear with_snap, "do not print state snapshots";
+              "--inv", Arg.Set with_inv, "evaluate the Coq invariant checker after every top-level command" ]
     (fun f -> files := f :: !files) "modelrun [--fuel n] [--no-snap] file...";
   List.iter (fun file ->
       let ic = open_in file in
